@@ -871,6 +871,37 @@ func nameFields(p *Prog) map[string]bool {
 	return out
 }
 
+// loweredKeyFields: the string fields x.F such that strings.ToLower(x.F) is the key of an access to a name-keyed map: F holds
+// the spelling of a name.
+func loweredKeyFields(p *Prog) map[string]bool {
+	out := map[string]bool{}
+	for _, fn := range p.Funcs {
+		eachInstr(fn, func(_ *ssa.BasicBlock, _ int, in ssa.Instruction) {
+			var m, key ssa.Value
+			switch x := in.(type) {
+			case *ssa.MapUpdate:
+				m, key = x.Map, x.Key
+			case *ssa.Lookup:
+				m, key = x.X, x.Index
+			default:
+				return
+			}
+			if _, ok := nameKeyedMapTypes[typeStr(m.Type())]; !ok {
+				return
+			}
+			call, ok := key.(*ssa.Call)
+			if !ok || calleeFullName(&call.Call) != "strings.ToLower" {
+				return
+			}
+			// fields of the package's own types only: a yaml.Node carries any text
+			if f, _ := fieldLoad(call.Call.Args[0]); f != "" && f != "String.Value" && strings.Count(f, ".") == 1 {
+				out[f] = true
+			}
+		})
+	}
+	return out
+}
+
 // rawSpelling: v is a load of a name field (or the Value of the *String kept there), unchanged, possibly received as a
 // parameter.
 func rawSpelling(p *Prog, fields map[string]bool, v ssa.Value, depth int) (string, bool) {
